@@ -75,8 +75,8 @@ def run_case(desc):
         return out
     # independent operations and letters of the returned cell
     cellt = (cc, sp, nums)
-    sym = spglib.get_symmetry(cellt, symprec=sc.TOL)
-    d3 = spglib.get_symmetry_dataset(cellt, symprec=sc.TOL)
+    sym = spglib.get_symmetry(cellt, symprec=c.otol)
+    d3 = spglib.get_symmetry_dataset(cellt, symprec=c.otol)
     if sym is None or d3 is None:
         out.discard = "spglib-none-on-returned"
         return out
@@ -102,7 +102,7 @@ def run_case(desc):
                 dist = np.linalg.norm(d @ cc, axis=1)
                 dist[nums != nums[a]] = 1e9
                 k = int(np.argmin(dist))
-                if dist[k] > 5 * sc.TOL:
+                if dist[k] > 5 * c.otol:
                     bad = True
                     break
                 hit.add(k)
